@@ -32,11 +32,11 @@ UNIVERSE = [".notdef", "a", "b", "B", "c"]
 ALPHA = UNIVERSE + ["zz"]          # 'zz' never exists in the font
 INSERTION = ["c", "b", ".notdef", "a", "B"]   # glyph insertion order: neither sorted nor reversed
 
-CPS = [0x41, 0x42, 0xFFFF, 0x10000, 0x1F600]
+CPS = [0x41, 0x0000, 0xFFFF, 0x10000, 0x1F600]  # U+0000 is a valid (falsy) code point
 CMAP_GLYPHS = ["a", "b", "c"]
 SELECTORS = [0xFE00, 0xE0100]
 UVS_BASES = [
-    {"a": [0x41], "b": [0x42, 0xFFFF], "c": []},                 # BMP only
+    {"a": [0x41], "b": [0x0000, 0xFFFF], "c": []},                 # BMP only
     {"a": [0x41, 0x10000], "b": [0xFFFF], "c": [0x1F600]},       # with supplementary code points
 ]
 UVS_KEY = "public.unicodeVariationSequences"
